@@ -34,7 +34,7 @@ Patterns == {"f", "d", "l", "sub"}
 VARIABLES present,   \* set of optional inside nodes that exist
           linkAt, target, op, pattern,
           fault,     \* a nested entry whose removal the backend refuses (<<>> = none): the call must then not report success
-          spelling   \* "plain" | "blanks": the directory names begin or end with a blank (the semantics does not depend on it)
+          spelling   \* "plain" | "blanks" | "dots": the names begin or end with a blank / end with dots (the semantics does not depend on it)
 
 vars == <<present, linkAt, target, op, pattern, fault, spelling>>
 
@@ -54,7 +54,7 @@ Init == /\ present \in SUBSET Inside /\ linkAt \in LinkPlaces /\ target \in Targ
         /\ op \in Ops /\ pattern \in Patterns
         /\ (op \in {"RmLink", "RmLinkTrailing"} => target # "none")
         /\ fault \in {<<>>} \cup (IF op \in {"Rm", "CleanDir"} /\ target = "none" THEN present ELSE {})
-        /\ spelling \in {"plain", "blanks"} /\ (spelling = "blanks" => (fault = <<>> /\ op \in {"Rm", "CleanDir", "RmExcluding", "CleanDirExcluding"}))
+        /\ spelling \in {"plain", "blanks", "dots"} /\ (spelling # "plain" => (fault = <<>> /\ op \in {"Rm", "RmLink", "CleanDir", "RmExcluding", "CleanDirExcluding"}))
         /\ (op \notin {"RmExcluding", "CleanDirExcluding"} => pattern = "f")     \* pattern only matters for the excluding entry points
 Next == UNCHANGED vars
 Spec == Init /\ [][Next]_vars
